@@ -324,7 +324,7 @@ func TestC13Methods(t *testing.T) {
 	if err != nil {
 		t.Fatalf("INFRA: %v", err)
 	}
-	rounds := run.Pick(2, 30)
+	rounds := run.Pick(2, 160)
 	nsh := hx.NShards()
 	for r := 0; r < rounds; r++ {
 		if r%nsh != run.Shard-100 && nsh > 1 {
